@@ -138,6 +138,9 @@ func init() {
 		}
 	}
 	interestingRunes = append(interestingRunes, 0xF92F, 0x1D7CE)
+	// pairs of one identifier character and one that is none (space, separator) that agree modulo
+	// 2^10 and 2^8: what a small direct-mapped table keyed by the low bits of the code point needs
+	interestingRunes = append(interestingRunes, 0x3000, 0xAC00, 0x4E28, 0x00A0, 0x04A0, 0x06FF)
 }
 
 // sameLengthDecoy returns different content of exactly the same length and line structure shifted.
